@@ -39,8 +39,9 @@ pub const MIRRORS: &[(&[&str], &str, &str, &str)] = &[
     (&["C17"], "input.rs", "take", "Lexer.Input"),
     (&["C17"], "input.rs", "take_from", "Lexer.Input"),
     (&["C17"], "input.rs", "take_split", "Lexer.Input"),
-    (&["C17"], "lexer/error.rs", "contextualize", "Lexer.Context.contextualize"),
-    (&["C17"], "lexer/util.rs", "until_next_unindented", "Lexer.Context.untilNextUnindented"),
+    (&["C17", "C08"], "lexer/error.rs", "contextualize", "Lexer.Context.contextualize"),
+    (&["C17", "C08"], "lexer/util.rs", "until_next_unindented", "Lexer.Context.untilNextUnindented"),
+    (&["C08"], "validator/linking/mod.rs", "link_with_type", "Link.Chase (the supertypes visited list)"),
     // values
     (&["C07"], "lexer/bit_string.rs", "bit_string_value", "Lexer.Values"),
     (&["C07"], "validator/linking/utils.rs", "bit_string_to_octet_string", "Lexer.Values"),
